@@ -768,6 +768,15 @@ func (m *Model) NestedAdmissible(parent, n Step, blockedSoFar int, writerBlocked
 	if m.Blocks(parent, n) && blockedSoFar >= 1 {
 		return false // two calls blocked on one mutex would be released in an unknown order
 	}
+	if n.Op == OpRemoveClient && m.BlocksOnWriter(parent, n) {
+		// the blocked UnsubscribeClient has already unregistered every subscriber of the
+		// connection; only the parked one may be among them, or the others' fate would race
+		for _, s := range m.Subs {
+			if s.Live && !s.Sync && s.Conn == n.Conn && s.Idx != parent.Split.Target {
+				return false
+			}
+		}
+	}
 	if n.Op == OpSubscribe && HoldsUpdater(parent) && n.Hook == HookEmit {
 		// the joiner's hook would call back into the held updater and block until the resume
 		if p := m.LivePeriod(n.Key); p != nil && p.Idx == parent.Period {
